@@ -8,6 +8,7 @@ import (
 	"sort"
 	"strings"
 	"sync"
+	"sync/atomic"
 	"time"
 
 	"github.com/trajectoryjp/spatial_id_go/v4/common"
@@ -31,6 +32,7 @@ type CaseC19 struct {
 	H, V  int64     // shared zoom arguments
 	Calls []int     // operation indices, dealt round-robin to the goroutines
 	G     int
+	Storm int `json:",omitempty"` // sweep only: number of distinct cheap calls racing one slow call of the same function
 }
 
 // shared arguments of a workload (read-only for the library)
@@ -440,11 +442,100 @@ func checkC19(c *CaseC19, fl *Fails) {
 		fl.Add("result-differs", "call %d (%s) returned a different result when run concurrently: %.200s / alone: %.200s", m.call, c19Ops[c.Calls[m.call]].name, m.got, want[m.call])
 		break
 	}
+	// after the concurrent phase every call, run alone again, must still return its sequential result
+	// (state poisoned by an interleaving would persist)
+	for i, k := range c.Calls {
+		if got := c19Ops[k].f(w); got != want[i] {
+			fl.Add("result-differs-after", "call %d (%s) returns a different result after the concurrent phase: %.200s / before: %.200s", i, c19Ops[k].name, got, want[i])
+			break
+		}
+	}
+	if c.Storm > 0 {
+		c19Storm(c, fl)
+	}
 	if raceLogSize() > before {
 		fl.Add("data-race", "race detector report during the workload: %s", raceLogTail())
 	}
 	if !sameStrings(snapExt, w.ext) || !sameStrings(snapSp, w.sp) || snapPts[0] != *w.pts[0] || snapPts[1] != *w.pts[1] || snapTile != *w.tiles[0] || snapQk != *w.qks[0] || snapObj != *w.eobj {
 		fl.Add("shared-argument-modified", "a shared argument changed during the workload")
+	}
+}
+
+// c19Storm: one slow call and thousands of distinct cheap calls of the same function at the same time (more keys
+// than any plausible bounded cache holds), then every cheap call again, alone. Oracle without precomputation:
+// the clearance fit is invariant under translation in x and f (all voxels of one row have the same size), so all
+// cheap calls must return the same pair, during and after the storm.
+func c19Storm(c *CaseC19, fl *Fails) {
+	p := c.Pts[0].obj()
+	if p == nil {
+		return
+	}
+	ids, err := shape.GetExtendedSpatialIdsOnPoints([]*object.Point{p}, 25, 25)
+	if err != nil || len(ids) != 1 {
+		return
+	}
+	b, _ := ref.ParseExt(ids[0])
+	key := func(i int) string {
+		return ref.Box{H: 25, X: ref.Mod(b.X+int64(i%97)*1009+int64(i), 25), Y: b.Y, V: 25, F: int64(i%7) - 3}.Ext()
+	}
+	type lay struct{ h, v int64 }
+	var mu sync.Mutex
+	results := map[int]lay{}
+	var wg sync.WaitGroup
+	start := make(chan struct{})
+	var slow lay
+	var slowDone atomic.Bool
+	var next atomic.Int64
+	wg.Add(1)
+	go func() {
+		defer wg.Done()
+		<-start
+		h, v, _ := transform.FitClearanceAroundExtendedSpatialID(key(-1), 4000)
+		slow = lay{h, v}
+		slowDone.Store(true)
+	}()
+	// the cheap calls go on until the slow call has finished and at least c.Storm distinct keys were used
+	// (capped), so that whatever the slow call leaves behind is still recent when the storm ends
+	const maxKeys = 60000
+	workers := 8
+	for g := 0; g < workers; g++ {
+		wg.Add(1)
+		go func() {
+			defer wg.Done()
+			<-start
+			for {
+				i := int(next.Add(1)) - 1
+				if i >= maxKeys || (slowDone.Load() && i >= c.Storm) {
+					return
+				}
+				h, v, _ := transform.FitClearanceAroundExtendedSpatialID(key(i), 1.0)
+				mu.Lock()
+				results[i] = lay{h, v}
+				mu.Unlock()
+			}
+		}()
+	}
+	close(start)
+	wg.Wait()
+	n := len(results)
+	Count("c19_storm_keys", int64(n))
+	first := results[0]
+	for i := 0; i < n; i++ {
+		if r, ok := results[i]; ok && r != first {
+			fl.Add("storm-result-differs", "clearance fit of %s (1 m) returned %v during the storm, %v for the other voxels of the same row", key(i), r, first)
+			return
+		}
+	}
+	// most recent keys first: they are the ones a bounded cache still holds
+	for i := n - 1; i >= 0; i-- {
+		h, v, _ := transform.FitClearanceAroundExtendedSpatialID(key(i), 1.0)
+		if (lay{h, v}) != first {
+			fl.Add("storm-result-differs-after", "clearance fit of %s (1 m) returns %v after the storm (the slow call returned %v), %v for the other voxels of the same row", key(i), lay{h, v}, slow, first)
+			return
+		}
+	}
+	if h, v, _ := transform.FitClearanceAroundExtendedSpatialID(key(-1), 4000); (lay{h, v}) != slow {
+		fl.Add("storm-result-differs-after", "slow clearance fit returned %v during the storm and %v alone", slow, lay{h, v})
 	}
 }
 
@@ -457,6 +548,18 @@ func init() {
 			"schedules are sampled by real parallel execution (16 cores), not enumerated: a race that needs a rare interleaving can be missed; unsynchronised writes on a hot path are reported within the first workloads",
 		},
 		Gen: genC19, Check: checkC19, Classify: classifyC19,
+		Sweep: func(tier string, emit func(*CaseC19)) {
+			if tier == "quick" {
+				return
+			}
+			emit(&CaseC19{Boxes: []ref.Box{{H: 5, X: 3, Y: 3, V: 5, F: -1}}, Pts: []Pt{{F64(139.767125), F64(35.681236), F64(10)}, {F64(139.7672), F64(35.6813), F64(12)}}, H: 5, V: 5, Calls: []int{0, 9, 14}, G: 2, Storm: 9000})
+		},
+		SweepScopes: func(tier string) []string {
+			if tier == "quick" {
+				return nil
+			}
+			return []string{"one storm: a slow clearance fit racing >= 9000 distinct cheap clearance fits on 8 goroutines (they continue until the slow call is done), then all of them again alone, most recent first (translation-invariance oracle)"}
+		},
 		ReplayRuns: 8,
 	})
 }
